@@ -84,7 +84,7 @@ func checkC05(c *Ctx, r *Report) {
 					return false
 				}
 				gl, ok := u.X.(*ssa.Global)
-				return ok && gl.Name() == "ErrNotCacheable"
+				return ok && gname(gl) == "ErrNotCacheable"
 			}) {
 				fanOut = c.InstrPos(ret)
 			}
@@ -312,7 +312,7 @@ func checkC05(c *Ctx, r *Report) {
 	// only functions that produce a fetchResult are of interest
 	producesResult := func(h *ssa.Function) bool {
 		res := h.Signature.Results()
-		return res.Len() == 2 && strings.HasSuffix(res.At(0).Type().String(), "proxy.fetchResult") && res.At(1).Type().String() == "error"
+		return res.Len() == 2 && strings.HasSuffix(canonTypes(res.At(0).Type().String()), "proxy.fetchResult") && res.At(1).Type().String() == "error"
 	}
 	nRet, nDirect := 0, 0
 	for _, h := range grp {
@@ -342,7 +342,7 @@ func checkC05(c *Ctx, r *Report) {
 				nDirect++
 				isNC := false
 				if u, ok := vals[1].(*ssa.UnOp); ok {
-					if gl, ok := u.X.(*ssa.Global); ok && gl.Name() == "ErrNotCacheable" {
+					if gl, ok := u.X.(*ssa.Global); ok && gname(gl) == "ErrNotCacheable" {
 						isNC = true
 					}
 				}
@@ -401,7 +401,7 @@ func checkC05(c *Ctx, r *Report) {
 			if a, isA := resolveValAlloc(vals[0]); isA {
 				for _, ref := range *a.Referrers() {
 					if fa, ok := ref.(*ssa.FieldAddr); ok {
-						if fv, _, _ := fieldOf(fa); fv != nil && fv.Name() == "Type" {
+						if fv, _, _ := fieldOf(fa); fv != nil && fname(fv) == "Type" {
 							for _, st := range storesTo(fa) {
 								if k, isC := constInt(st.Val); !isC || k != 0 {
 									okT = false
@@ -586,14 +586,14 @@ func checkC06(c *Ctx, r *Report) {
 				return
 			}
 			fv, _, is := fieldOf(st.Addr)
-			if !is || (fv.Name() != "ETag" && fv.Name() != "LastModified") {
+			if !is || (fname(fv) != "ETag" && fname(fv) != "LastModified") {
 				return
 			}
-			if n, okN := fv.Pkg().Scope().Lookup("cachedRequestInfo").(*types.TypeName); !okN || n == nil {
+			if n, okN := scopeLookupType(fv.Pkg(), "cachedRequestInfo").(*types.TypeName); !okN || n == nil {
 				return
 			}
 			owner := false
-			if stt, okS := fv.Pkg().Scope().Lookup("cachedRequestInfo").Type().Underlying().(*types.Struct); okS {
+			if stt, okS := scopeLookupType(fv.Pkg(), "cachedRequestInfo").Type().Underlying().(*types.Struct); okS {
 				for i := 0; i < stt.NumFields(); i++ {
 					if stt.Field(i) == fv {
 						owner = true
@@ -604,7 +604,7 @@ func checkC06(c *Ctx, r *Report) {
 				return
 			}
 			nStoreV++
-			hdr := map[string]string{"ETag": "ETag", "LastModified": "Last-Modified"}[fv.Name()]
+			hdr := map[string]string{"ETag": "ETag", "LastModified": "Last-Modified"}[fname(fv)]
 			fromHeader, fromClock, other := false, false, ""
 			derivesFromDeep(st.Val, nil, func(v ssa.Value, _ dctx) bool {
 				call, ok := v.(*ssa.Call)
@@ -628,7 +628,7 @@ func checkC06(c *Ctx, r *Report) {
 				}
 				return false
 			})
-			r.Check(fromHeader && !fromClock && other == "", "C06.R1", fnKey(f)+": stored "+fv.Name()+" is the origin's "+hdr, c.InstrPos(st), "derives from resp.Header.Get(\""+hdr+"\") only (zero / empty when the origin sent none)", "the validator stored with the entry is not (only) the "+hdr+" the origin sent with this response (clock="+fmt.Sprint(fromClock)+" "+other+"): revalidation then asks the origin with a validator it never issued, and clients are handed it as if it were the origin's")
+			r.Check(fromHeader && !fromClock && other == "", "C06.R1", fnKey(f)+": stored "+fname(fv)+" is the origin's "+hdr, c.InstrPos(st), "derives from resp.Header.Get(\""+hdr+"\") only (zero / empty when the origin sent none)", "the validator stored with the entry is not (only) the "+hdr+" the origin sent with this response (clock="+fmt.Sprint(fromClock)+" "+other+"): revalidation then asks the origin with a validator it never issued, and clients are handed it as if it were the origin's")
 		})
 	}
 	r.Floor("C06.R1", nStoreV, 2, "stores of the entry's validators")
@@ -789,7 +789,7 @@ func checkC06(c *Ctx, r *Report) {
 				for _, ref := range *call.Referrers() {
 					if st, ok := ref.(*ssa.Store); ok {
 						if fv, _, is := fieldOf(st.Addr); is {
-							names[fv.Name()] = s
+							names[fname(fv)] = s
 						}
 					}
 				}
@@ -836,7 +836,7 @@ func checkC06(c *Ctx, r *Report) {
 				if !is || !strings.HasPrefix(structName(base.Type()), cachePkg+".EntryMetadata") {
 					return
 				}
-				written = append(written, fv.Name())
+				written = append(written, fname(fv))
 				s := atomStr(st.Val)
 				if strings.HasPrefix(s, "Add(Now(),") && strings.Contains(s, "CachePolicy.DefaultMaxAge") {
 					okVal = true
@@ -939,7 +939,7 @@ func checkC09(c *Ctx, r *Report) {
 				carries := false
 				derivesFrom(ev, func(v ssa.Value) bool {
 					if u, ok := v.(*ssa.UnOp); ok {
-						if gl, ok := u.X.(*ssa.Global); ok && gl.Name() == "ErrNotCacheable" {
+						if gl, ok := u.X.(*ssa.Global); ok && gname(gl) == "ErrNotCacheable" {
 							carries = true
 						}
 					}
